@@ -25,6 +25,9 @@ def generate(G):
     G.ob("c13_after_add", "C13", "update_after_add", "c13::update_after_add(s)", unwind=6, tier="quick",
          skeleton={"what": "gradients deposited by a real pass through an addition (both parameters' gradients and the sum's share one buffer), then update"},
          domains="values D4; lr in {0,0.5,1,2}")
+    G.ob("c13_odd_gradient_shape", "C13", "update_odd_gradient_shape", "c13::update_odd_gradient_shape(s)", unwind=6, tier="quick",
+         skeleton={"what": "gradients of dimensions [1,2] / [2] stored on parameters of dimensions [2] / [1,2]: dimensions kept, element-wise step"},
+         domains="values, gradients D4; lr in {0,0.5,1,2}")
     G.ob("c13_grad_while_untracked", "C13", "update_grad_while_untracked", "c13::update_grad_while_untracked(s)", unwind=6, tier="quick",
          skeleton={"what": "a parameter that holds a gradient but had stop_tracking() called before the update is stepped and comes back tracked"},
          domains="values, gradients D4; lr in {0,0.5,1,2}")
